@@ -136,6 +136,9 @@ def run_taylor(item):
                 else:
                     ctx.proved.append('coefficient %d of x%d also matches at the test points (order may be higher for this field)' % (k, s))
             der = D(der, f, True)
+    # twin (vacuity): the first step derivative is not the doubled field
+    wrongf = ev(f[0] * 2, leafs(pts[0], lambda v: v), ctx.fdom)
+    ctx.twins = (1, 0) if abs(wrongf - fo[0][1][0]) > 1e-9 else (0, 1)
     # quadrature: d^k/dh^k Q(0) == D^{k-1} q
     q = spec.quads[0]
     der = q
